@@ -374,7 +374,7 @@ def _merge_slices(fields):
     # faster than np.any([rmin, rmax, cmin, cmax])
     if (rmin == 0 and rmax == 0 and cmin == 0 and cmax == 0
             and all(f.data.ndim == 0 for f in fields)):
-        out.append(Ellipsis)
+        out.extend([Ellipsis] * len(fields))
     else:
         for field in fields:
             frmin, frmax, fcmin, fcmax = field.extent
